@@ -55,6 +55,34 @@ def main():
     ds["lz"] = lz
     apps = {"plain": BaseHandler(ds), "gzip": BaseHandler(ds, gzip=True)}
 
+    def small_blocks(environ, start_response, inner=BaseHandler(ds)):
+        # the same application streaming its arrays in blocks of a few bytes (environ key pydap.buffer_size, a deployment setting)
+        environ["pydap.buffer_size"] = 3
+        return inner(environ, start_response)
+    apps["small-blocks"] = small_blocks
+
+    def raw_length_problem(app_, url_, path_):
+        """the answer taken at the WSGI level, as a server would: -> None, or what is wrong with its Content-Length"""
+        req_ = Request.blank(url_)
+        if path_ == "":
+            req_.path_info = ""
+        got_ = {}
+
+        def sr(status, headers, exc_info=None):
+            got_["status"], got_["headers"] = status, headers
+            return lambda b: None
+        try:
+            it_ = app_(req_.environ, sr)
+            n_ = sum(len(chunk) for chunk in it_)
+            if hasattr(it_, "close"):
+                it_.close()
+        except Exception:
+            return None          # (failures while the body is produced are what the main classification reports)
+        cl = [v for k, v in got_.get("headers", []) if k.lower() == "content-length"]
+        if cl and int(cl[0]) != n_:
+            return "Content-Length %s, body of %d bytes (status %s)" % (cl[0], n_, got_.get("status"))
+        return None
+
     names = ["x", "f", "s", "b", "flag", "by", "g", "g.a", "g.y", "st", "st.m", "st.n", "q", "q.a", "q.c", "lz", "lz.k", "nope", "x.y", "q.zz", ""]
     shapes = {"x": (10,), "flag": (6,), "by": (7,), "f": (3, 4), "s": (3,), "g": (3, 4), "g.a": (3, 4), "g.y": (3,), "st.m": (4,)}
 
@@ -156,11 +184,15 @@ def main():
                                         "lz[0:99999999999999999999:99999999999999999999]", "lz[0:9223372036854775808:1]",
                                         "lz.v[9223372036854775808]", "q[99999999999999999999]"]
               for p_ in ("/d.dds", "/d.dods", "/d.asc") for a_ in ("plain", "gzip")]
+    # ... faults whose offending text is echoed in the error document, with non-ASCII characters in it; Byte arrays in small blocks
+    corpus += [("/d.dods", ce_, a_) for ce_ in ["x[%C3%A9]", "q&q.a>%22%C3%A9", "lz&lz.k>%C3%A9%20%C3%A9", "f[%E2%82%AC:1]", "x[0:%F0%9F%98%80]",
+                                                "q&q.c=%22%C3%A9"] for a_ in ("plain", "gzip")]
+    corpus += [(p_, ce_, "small-blocks") for ce_ in ["by", "by[0:4]", "by[1:2:6]", "b", "x,by,f", ""] for p_ in ("/d.dods", "/d.asc")]
     for i in range(n + len(corpus)):
         valid = rng.random() < 0.4
         ce = valid_ce() if valid else faulty_ce()
         path = rng.choice(paths_ok) if (valid or rng.random() < 0.7) else rng.choice(paths_odd)
-        appname = rng.choice(["plain", "plain", "gzip"])
+        appname = rng.choice(["plain", "plain", "gzip", "small-blocks"])
         if i < len(corpus):
             (path, ce, appname), valid = corpus[i], False
         url = (path or "/") + ("?" + ce if ce else "")
@@ -204,6 +236,11 @@ def main():
         if outcome.startswith("raised-reading-body:RuntimeError") and lz_selects_nothing(ce) and "C15-empty-lazy-sequence" in kf:
             known_hits["C15-empty-lazy-sequence"] = url
             continue
+        if outcome in ("200", "error-doc") and (i < len(corpus) or rng.random() < 0.5):
+            bad_len = raw_length_problem(apps[appname], url, path)
+            if bad_len:
+                direct.append({"law": "the Content-Length of an answer is the length of its body", "request": url, "application": appname,
+                               "outcome": "wrong-length:" + outcome, "detail": bad_len, "valid_constraint": valid})
         if outcome not in ("200", "error-doc"):
             direct.append({"law": "a request is answered with 200+content type or a DAP error document; a 200 body can be read",
                            "request": url, "application": appname, "outcome": outcome, "valid_constraint": valid})
